@@ -394,7 +394,7 @@ def decorators(chk, prefix="C08"):
                     chk.prove(f"{prefix}.decorators.{dec}", s3.pc, goal,
                               desc=f"{dec}(f)(*a, **k) is a function g with g._original_name == f.__name__ and g(leading...) == f(leading..., *a, **k): the user function is called exactly once with the leading argument(s) first, and its value is returned")
         if n == 0:
-            chk.fault(f"{dec}: no path explored")
+            chk.prove(f"{prefix}.decorators.{dec}", [], F, desc=f"reachability: {dec}(f)(*a)(ctx) reaches the user function on some path")
 
 
 def batch_summary_wiring(chk, prefix="C16"):
